@@ -1,3 +1,116 @@
 import PysphVerif.Driver.Common
-/-! Line-protocol driver for C07 (stub: not built yet). -/
-def main : IO Unit := PysphVerif.Driver.loopPure (fun _ => "bad-op")
+import PysphVerif.Model.Domain
+/-!
+Line protocol for C07.  One line = one `DomainManager.update()`:
+
+  `upd <Q|F> xmin=<n> xmax=<n> ymin=<n> ymax=<n> zmin=<n> zmax=<n> per=<bbb> mir=<bbb>
+        nl=<n> rs=<n>  A keep=<bbbb> kx=<b…|_> d=<n,n,n,n> dx=<n,…|_> P=<tag>:<n,…> P=…  A …`
+
+numbers `<n>` are rationals `p/q` in mode `Q` and IEEE bit patterns `x<16 hex>`
+in mode `F`; a particle is `tag:x,y,z,u,v,w,h,extra…`; `keep`/`d` are for
+`u,v,w,h`, `kx`/`dx` for the extra properties.  Answer:
+
+  `c=<cell size> A P=… P=… A …`
+
+Anything malformed answers `bad-op`.
+-/
+namespace PysphVerif.Driver.C07
+open PysphVerif.Wire PysphVerif.Domain
+
+structure Num (α : Type) where
+  parse : String → Option α
+  shw : α → String
+  eps : α
+
+def parseBits (s : String) : Option (List Bool) :=
+  if s = "_" then some [] else
+  s.toList.mapM (fun c => if c = '1' then some true else if c = '0' then some false else none)
+
+def parseParticle {α} (N : Num α) (s : String) : Option (Particle α) :=
+  match s.splitOn ":" with
+  | [t, body] => do
+    let tag ← parseNat? t
+    let vals ← parseList? N.parse body
+    match vals with
+    | x :: y :: z :: u :: v :: w :: h :: extra =>
+      some { x := x, y := y, z := z, u := u, v := v, w := w, h := h, tag := tag, extra := extra }
+    | _ => none
+  | _ => none
+
+def showParticle {α} (N : Num α) (p : Particle α) : String :=
+  "P=" ++ toString p.tag ++ ":" ++
+    showList N.shw ([p.x, p.y, p.z, p.u, p.v, p.w, p.h] ++ p.extra)
+
+/-- split token list at every "A" (first group = header) -/
+def groups (toks : List String) : List (List String) :=
+  let r := toks.foldl (fun (acc : List (List String)) t =>
+    if t = "A" then [] :: acc else
+    match acc with
+    | [] => [[t]]
+    | g :: gs => (t :: g) :: gs) [[]]
+  r.reverse.map List.reverse
+
+def parseArray {α} (N : Num α) (toks : List String) :
+    Option (CopySpec α × List (Particle α)) := do
+  let ptoks := toks.filter (fun t => t.startsWith "P=")
+  let rest := toks.filter (fun t => !(t.startsWith "P="))
+  let kv := kvs rest
+  if kv.length ≠ rest.length then none else
+  let keep ← (lookup kv "keep") >>= parseBits
+  let kx ← (lookup kv "kx") >>= parseBits
+  let d ← (lookup kv "d") >>= parseList? N.parse
+  let dx ← (lookup kv "dx") >>= parseList? N.parse
+  let ps ← ptoks.mapM (fun t => parseParticle N (t.drop 2).toString)
+  match keep, d with
+  | [ku, kv', kw, kh], [du, dv, dw, dh] =>
+    if kx.length ≠ dx.length then none
+    else if ps.any (fun p => p.extra.length ≠ kx.length) then none
+    else some ({ keepU := ku, keepV := kv', keepW := kw, keepH := kh, keepExtra := kx,
+                 dU := du, dV := dv, dW := dw, dH := dh, dExtra := dx }, ps)
+  | _, _ => none
+
+def parseConfig {α} (N : Num α) (toks : List String) : Option (Config α) := do
+  let kv := kvs toks
+  if kv.length ≠ toks.length then none else
+  let g := fun k => (lookup kv k) >>= N.parse
+  let per ← (lookup kv "per") >>= parseBits
+  let mir ← (lookup kv "mir") >>= parseBits
+  match per, mir with
+  | [px, py, pz], [mx, my, mz] =>
+    some { xmin := ← g "xmin", xmax := ← g "xmax", ymin := ← g "ymin", ymax := ← g "ymax",
+           zmin := ← g "zmin", zmax := ← g "zmax", px := px, py := py, pz := pz,
+           mx := mx, my := my, mz := mz, nLayers := ← g "nl", radiusScale := ← g "rs",
+           eps := N.eps }
+  | _, _ => none
+
+section
+variable {α : Type} [Add α] [Sub α] [Mul α] [Neg α] [LT α] [DecidableLT α] [LE α] [DecidableLE α]
+  [OfNat α 0] [OfNat α 1] [OfNat α 2]
+
+def runUpd (N : Num α) (hd : List String) (arrGroups : List (List String)) : String :=
+  match parseConfig N hd, arrGroups.mapM (parseArray N) with
+  | some cfg, some arrs =>
+    let (cell, out) := update cfg (arrs.map (·.1)) (arrs.map (·.2))
+    "c=" ++ N.shw cell ++
+      String.join (out.map (fun a => " A" ++ String.join (a.map (fun p => " " ++ showParticle N p))))
+  | _, _ => "bad-op"
+end
+
+def numQ : Num Rat :=
+  { parse := parseRat?, shw := showRat,
+    -- exact value of the double nearest to 1e-6
+    eps := mkRat 4722366482869645 4722366482869645213696 }
+
+def numF : Num Float :=
+  { parse := parseFloatBits?, shw := showFloatBits,
+    eps := Float.ofBits 0x3eb0c6f7a0b5ed8d }
+
+def handle (line : String) : String :=
+  match groups (tokens line) with
+  | ("upd" :: "Q" :: hd) :: arrGroups => runUpd numQ hd arrGroups
+  | ("upd" :: "F" :: hd) :: arrGroups => runUpd numF hd arrGroups
+  | _ => "bad-op"
+
+end PysphVerif.Driver.C07
+
+def main : IO Unit := PysphVerif.Driver.loopPure PysphVerif.Driver.C07.handle
